@@ -14,3 +14,6 @@ Definition oget_bytes (h : hdr) (l : Z) : res bytes := get_bytes (hmap h) l.
 (* h[l] = v: assignment to an entry of a nil map panics *)
 Definition oset (h : hdr) (l : Z) (v : gval) : res hdr :=
   match h with None => Panic | Some m => Ok (Some (set_label m (ilabel l) v)) end.
+
+(* the value of a (value, error) pair: Go functions here return the zero value together with an error *)
+Definition val_or {A} (d : A) (r : res A) : A := match r with Ok a => a | _ => d end.
